@@ -19,6 +19,16 @@ CHECKS = {
                 "move_dist_t3; rate_t3 under |jerk|T^2<2^40, |accel|T<2^40 (superset of the firmware-valid domain by a paper argument)",
         "technique": "symbolic execution of the Python source on z3 integer terms + SMT (non-linear integer arithmetic) obligations per path, induction lemmas, counterexample replay",
     },
+    "C04": {
+        "text": "Inductive step over the real classes: every public method of EBB3/EBBMotionWrap (found by introspection) is executed "
+                "from each blocked pre-state (no port / symbolic error message recorded) with symbolic arguments against a recording "
+                "fake port: it must write nothing, leave the same error object, return a failure value and stay blocked; connect and "
+                "disconnect are executed from every pre-state with a solver-chosen handshake (open failure, empty, non-EBB, old/new "
+                "banner, SerialException) and must never replace a recorded error. Histories of any length follow by induction.",
+        "note": "serial.Serial/comports stubbed; failure values = False/None/tuple of Nones; induction over histories is the standard "
+                "paper argument; private (_) methods and external attribute mutation outside the claim",
+        "technique": "symbolic execution of the Python source (symbolic strings/ints, solver-chosen fault schedule) + per-path obligations, counterexample replay",
+    },
     "C06": {
         "text": "Every legacy helper (through ebb_serial.command/query) and every EBB3-layer helper is executed with symbolic "
                 "integer arguments and each optional argument absent/present against a conforming fake port; formatting yields "
